@@ -84,6 +84,14 @@ def probe(m, ffi, lib):
                 errs.append([i, repr(val), outcome(lambda: fn(*args), conv)])
         errs.append(["arity", "", outcome(lambda: fn(*(base + [0])), conv)])
         res["funcs"][f["name"]] = {"calls": calls, "conv": errs}
+    # pointer parameters given Python lists of (partial) initialisers: the callee reads every
+    # field, also those the initialiser does not name
+    res["ptrcalls"] = {}
+    for i, (fname, args) in enumerate(m.get("ptr_calls", [])):
+        def call():
+            lib.c33_dirty_stack()
+            return int(getattr(lib, fname)(*args))
+        res["ptrcalls"]["%d:%s" % (i, fname)] = outcome(call, ident)
     return res
 
 
@@ -96,7 +104,7 @@ def build(m, route, work):
     for text, packed in cdefs:
         if text.strip():
             ffi.cdef(text, packed=packed)
-    lib = ffi.verify(W.PRELUDE + csrc, tmpdir=work, force_generic_engine=(route == "verify_gen"),
+    lib = ffi.verify(W.PRELUDE + csrc + m.get("raw_c", ""), tmpdir=work, force_generic_engine=(route == "verify_gen"),
                      modulename="%s_%s" % (m["name"], route))
     return ffi, lib
 
